@@ -291,7 +291,7 @@ def digests(prop, scen_name, tier, base_seed, n, jobs=16, src=None, reverse=Fals
 
 # ---------------------------------------------------------------------- batch
 def run_batch(prop, scen_name, tier, base_seed, n_runs, wall_budget, jobs=16, src=None,
-              chunk=8, evidence_extra=None, level_text='exploration'):
+              chunk=8, evidence_extra=None, level_text='exploration', survey=False):
     scen = _import_scen(scen_name)
     known = load_known()
     t0 = time.time()
@@ -367,11 +367,22 @@ def run_batch(prop, scen_name, tier, base_seed, n_runs, wall_budget, jobs=16, sr
                 next_i = n_runs      # stop feeding
     wall = time.time() - t0
     # ----- triage of violations
+    if survey:
+        for sig, ent in sorted(viol_by_sig.items()):
+            v = ent['first'][4] if ent['first'] else {}
+            print('SURVEY %-70s runs=%d %s' % (sig, ent['count'], str(v.get('detail'))[:160].replace('\n', ' ')))
+        viol_by_sig_all = viol_by_sig
+        viol_by_sig = {}
     lines = []
     new_violations = 0
     known_hits = []
     replay_paths = []
-    for sig, ent in sorted(viol_by_sig.items()):
+    own = sorted(s for s in viol_by_sig if s.startswith(prop + '.'))
+    new_sigs = [s for s in own if match_known(known, prop, s) is None and viol_by_sig[s]['first'] is not None]
+    total_min = 60.0 if tier == 'quick' else 300.0
+    per_sig = max(6.0, total_min / max(1, len(new_sigs)))
+    for sig in own:
+        ent = viol_by_sig[sig]
         kf = match_known(known, prop, sig)
         if kf is not None:
             known_hits.append((sig, ent['count'], kf))
@@ -379,8 +390,9 @@ def run_batch(prop, scen_name, tier, base_seed, n_runs, wall_budget, jobs=16, sr
         if ent['first'] is None:
             continue
         i, seed, case, res, v = ent['first']
-        mcase, mchoices, mres = minimise(scen, case, seed, sig,
-                                         budget_s=45.0 if tier == 'quick' else 120.0)
+        if time.time() - t0 - wall > total_min * 1.5:
+            per_sig = 0.0        # out of minimisation budget: confirm and report the raw case
+        mcase, mchoices, mres = minimise(scen, case, seed, sig, budget_s=per_sig)
         path = write_replay(prop, scen_name, mcase, seed, mchoices, mres, sig)
         # final confirmation from the file, in a fresh process
         rep, rres = replay_file(path)
